@@ -184,7 +184,35 @@ def build():
     # which error a parse failure becomes: From<ParseError> for Error
     rq = strip_comments(read("src/net/client/request.rs"))
     m = one(r"impl\s+From<ParseError>\s+for\s+Error\s*\{\s*fn\s+from\(\s*_\s*:\s*ParseError\s*\)\s*->\s*Self\s*\{\s*Self::(\w+)\s*\}", rq, "From<ParseError> for Error")
-    defs.append(("parse_error_is_message_parse_error", "bool", "true" if m.group(1) == "MessageParseError" else "false"))
+    parse_variant = m.group(1)
+    # the class of a response is decided by the EXTENDED rcode: header rcode | OPT ext-rcode << 4
+    m = re.search(r"match\s+msg\.(opt_rcode\(\)|header\(\)\.rcode\(\))\s*\{\s*OptRcode::NOERROR\s*=>|match\s+msg\.(header\(\)\.rcode\(\))\s*\{", va)
+    if not m:
+        raise GenError("validity: rcode scrutinee not recognised")
+    defs.append(("validity_uses_opt_rcode", "bool", "true" if m.group(1) == "opt_rcode()" else "false"))
+    rcs = strip_comments(read("src/base/iana/rcode.rs"))
+    m = one(r"fn\s+from_parts\(\s*rcode:\s*Rcode,\s*ext:\s*u8\s*\)\s*->\s*OptRcode\s*\{\s*OptRcode\(\(u16::from\(ext\)\s*<<\s*(\d+)\)\s*\|\s*u16::from\(rcode\.to_int\(\)\)\)\s*\}", rcs, "OptRcode::from_parts")
+    defs.append(("opt_rcode_shift", "N", "%s%%N" % m.group(1)))
+    ms = strip_comments(read("src/base/message.rs"))
+    one(r"self\.opt\(\)\s*\.map\(\|opt\|\s*opt\.rcode\(self\.header\(\)\)\)\s*\.unwrap_or_else\(\|\|\s*self\.header\(\)\.rcode\(\)\.into\(\)\)", fn_body(ms, "opt_rcode"), "Message::opt_rcode")
+    one(r"section\.limit_to::<Opt<_>>\(\)\.next\(\)\s*\{\s*Some\(Ok\(rr\)\)\s*=>\s*Some\(OptRecord::from\(rr\)\)\s*,\s*_\s*=>\s*None", fn_body(ms, "opt"), "Message::opt takes the first OPT record of the additional section")
+    # RequestMessage: to_message and append_message are the same serialisation (append_message_impl),
+    # which drops an OPT record of the base message and appends the RequestMessage's own
+    ib = impl_body(rq, r"impl<Octs:\s*AsRef<\[u8\]>\s*\+\s*Debug\s*\+\s*Octets>\s*RequestMessage<Octs>\s*\{")
+    tm = " ".join(fn_body(ib, "to_message_impl").split())
+    ok_tm = re.fullmatch(r'let target = MessageBuilder::from_target\(StaticCompressor::new\(Vec::new\(\)\)\) \.expect\("[^"]*"\); let target = self\.append_message_impl\(target\)\?; let result = target\.as_builder\(\)\.clone\(\); let msg = Message::from_octets\(result\.finish\(\)\.into_target\(\)\)\.expect\( "[^"]*", \); Ok\(msg\)', tm) is not None
+    cb = impl_body(rq, r"impl<Octs:\s*AsRef<\[u8\]>\s*\+\s*Debug\s*\+\s*Octets\s*\+\s*Send\s*\+\s*Sync>\s*ComposeRequest\s*for\s*RequestMessage<Octs>\s*\{")
+    am = " ".join(fn_body(cb, "append_message").split())
+    ok_am = re.fullmatch(r"let target = MessageBuilder::from_target\(target\) \.map_err\(\|_\| CopyRecordsError::Push\(PushError::ShortBuf\)\)\?; let builder = self\.append_message_impl\(target\)\?; Ok\(builder\)", am) is not None
+    ok_t = re.fullmatch(r"self\.to_message_impl\(\)", " ".join(fn_body(cb, "to_message").split())) is not None
+    defs.append(("request_one_serialisation", "bool", "true" if (ok_tm and ok_am and ok_t) else "false"))
+    ai = fn_body(ib, "append_message_impl")
+    drop = len(re.findall(r"if\s+rr\.rtype\(\)\s*!=\s*Rtype::OPT\s*\{\s*let\s+rr\s*=\s*rr\s*\.into_record::<UnknownRecordData<_>>\(\)\?\s*\.expect\(\"record expected\"\);\s*target\.push\(rr\)\?;\s*\}", ai)) == 1
+    own = len(re.findall(r"if\s+let\s+Some\(opt\)\s*=\s*self\.opt\.as_ref\(\)\s*\{\s*target\.push\(opt\.as_record\(\)\)\?;\s*\}", ai)) == 1
+    hdr = len(re.findall(r"\*target\.header_mut\(\)\s*=\s*self\.header\s*;", ai)) == 1
+    defs.append(("request_base_opt_dropped", "bool", "true" if (drop and own and hdr) else "false"))
+    one(r"fn\s+new\([^)]*\)\s*->\s*Result<Self,\s*Error>\s*\{[\s\S]*?Ok\(Self\s*\{\s*msg,\s*header,\s*opt:\s*None,\s*\}\)", ib, "RequestMessage::new starts without an OPT record of its own")
+    defs.append(("parse_error_is_message_parse_error", "bool", "true" if parse_variant == "MessageParseError" else "false"))
     ttlsrc = strip_comments(read("src/base/record.rs"))
     sb = fn_body(ttlsrc, "sub", after="impl core::ops::Sub for Ttl")
     one(r"self\.checked_sub\(\s*rhs\s*\)\s*\.expect\(", sb, "Ttl - Ttl panics on underflow")
